@@ -275,6 +275,7 @@ pub fn run_plan(plan: &Plan) -> RunOut {
     let mut w = world::World::new(plan.seed);
     w.fs_yield_pm = plan.fs_yield_pm;
     w.sched_yield_pm = plan.sched_yield_pm;
+    w.chan_cap = plan.chan_cap;
     w.disk.fail_writes = plan.disk_fail_writes.iter().cloned().collect();
     w.disk.fail_reads = plan.disk_fail_reads.iter().cloned().collect();
     w.disk.full_from = plan.disk_full_from;
